@@ -1,7 +1,8 @@
 #!/bin/sh
 # Sensitivity selftest: every mutant in /verif/mutants/<ID>_*.patch (and every kept seeded
 # change /verif/seeded/*/patch.diff, property from meta.json) must make that property's quick
-# check exit 1, and the unchanged tree must give exit 0. Applies patches to /repo's working tree
+# check exit 1 (changes whose meta.json says "expected": "silent" must leave it at exit 0), and
+# the unchanged tree must give exit 0. Applies patches to /repo's working tree
 # one at a time and always restores it. Usage: tools/selftest_mutants.sh [pattern]
 set -u
 cd /verif || exit 2
@@ -21,7 +22,16 @@ for D in seeded/*/; do
     case "$D" in *"$PATTERN"*) ;; *) continue ;; esac
     ID="$(python3 -c "import json,sys; m=json.load(open('$D/meta.json')); print(m.get('check_property', m['property']))" 2>/dev/null)"
     [ -n "$ID" ] || continue
+    EXPECT="$(python3 -c "import json; print(json.load(open('$D/meta.json')).get('expected', 'caught'))" 2>/dev/null)"
     LINE="$(tools/try_patch.sh "/verif/$D/patch.diff" "$ID" 2>&1 | tail -1)"
+    if [ "$EXPECT" = silent ]; then
+        # A change that the check deliberately accepts (see why_silent in meta.json): no alarm
+        case "$LINE" in
+            *"exit=0 "*) printf "%s\n" "silent   $D :: $LINE" ;;
+            *) printf "%s\n" "ALARM    $D :: $LINE"; FAIL=1 ;;
+        esac
+        continue
+    fi
     case "$LINE" in
         *"exit=1 "*) printf "%s\n" "caught   $D :: $LINE" ;;
         *) printf "%s\n" "MISSED   $D :: $LINE"; FAIL=1 ;;
